@@ -343,7 +343,7 @@ func Run(r *core.Run) {
 	// every first character of the encoded nonce occurs (a value that begins like some other notation is still this value)
 	type sweep struct{ size, first, last int }
 	var sweeps []sweep
-	for _, size := range []int{8, 12, 16, 24, 32} {
+	for _, size := range []int{1, 8, 12, 16, 24, 32, 33, 48, 64} {
 		for first := 0; first < 256; first++ {
 			sweeps = append(sweeps, sweep{size, first, first ^ 0x5a})
 		}
